@@ -163,13 +163,18 @@ func ttestCases(r *hx.Rand, n int) {
 				// statistic is ordinary; an error is due iff all differences are equal
 				off := hx.Pick(r, []float64{math.Ldexp(1, 53+r.Intn(10)), 1e9, 1.7e18, -math.Ldexp(1, 56), 3e15})
 				q := math.Nextafter(math.Abs(off), math.Inf(1)) - math.Abs(off) // ulp of the offset
-				q *= float64(int(1) << uint(r.Intn(6)))
+				// deviations of 0..1, 0..2, 0..3 ulps of the offset (standard deviation of the differences
+				// at or below one ulp of the inputs) as well as wider ones
+				span := hx.Pick(r, []int{2, 2, 3, 3, 4, 8, 64})
+				if span > 4 {
+					q *= float64(int(1) << uint(r.Intn(6)))
+				}
 				n1 = 2 + r.Intn(9)
 				n2 = n1
 				xs, ys = make([]float64, n1), make([]float64, n2)
 				for j := range xs {
-					xs[j] = off + float64(r.Intn(64))*q
-					ys[j] = off + float64(r.Intn(64))*q
+					xs[j] = off + float64(r.Intn(span))*q
+					ys[j] = off + float64(r.Intn(span))*q
 				}
 				if r.Chance(1, 6) { // all differences equal: the error IS due
 					d := float64(r.Intn(5)) * q
